@@ -211,6 +211,25 @@ def toColumns (batchFirst : Bool) (N : Nat) (t : List (List α)) (dflt : α) : L
 def fromColumns (batchFirst : Bool) (K : Nat) (cols : List (List Rat)) : List (List Rat) :=
   if batchFirst then cols else (List.range K).map (fun k => cols.map (fun col => col.getD k 0))
 
+/-- Size of the sequence dimension of a batch tensor: `t.size(1)` when `batch_first`, else
+`t.size(0)`. -/
+def seqDim (batchFirst : Bool) (t : List (List α)) : Nat :=
+  if batchFirst then (t.headD []).length else t.length
+
+/-- `error_rate` on a whole batch: `ref : (R, N)`, `hyp : (H, N)` (`(N, R)`, `(N, H)` when
+`batch_first`); one value per batch element. -/
+def errorRateBatch (cfg : Config α) (batchFirst : Bool) (N : Nat) (ref hyp : List (List α))
+    (dflt : α) : List Rat :=
+  List.zipWith (errorRateCol cfg) (toColumns batchFirst N ref dflt) (toColumns batchFirst N hyp dflt)
+
+/-- `prefix_error_rates` on a whole batch: the `(H + 1, N)` (or `(H, N)` under `exclude_last`)
+table, `(N, H + 1)` when `batch_first`. -/
+def prefixErrorRatesBatch (cfg : Config α) (batchFirst : Bool) (N : Nat) (ref hyp : List (List α))
+    (dflt : α) : List (List Rat) :=
+  fromColumns batchFirst (prefixRows (seqDim batchFirst hyp) cfg.excludeLast)
+    (List.zipWith (prefixErrorRatesCol cfg) (toColumns batchFirst N ref dflt)
+      (toColumns batchFirst N hyp dflt))
+
 /-! ## `minimum_error_rate_loss` -/
 
 inductive Reduction where
@@ -251,5 +270,41 @@ def reduce (r : Reduction) (l : List (List Rat)) : List (List Rat) ⊕ Rat :=
   | .none => .inl l
   | .sum => .inr l.flatten.sum
   | .mean => .inr (mean l.flatten)
+
+/-! ## Argument validation (tensor shapes); `none` stands for the raised `RuntimeError` -/
+
+/-- `_string_matching`: `ref` and `hyp` 2-D with the same batch size. Returns `(N, R, H)`. -/
+def checkPairShapes (batchFirst : Bool) (ref hyp : List Nat) : Option (Nat × Nat × Nat) :=
+  match ref, hyp with
+  | [a, b], [c, d] =>
+    if (if batchFirst then a else b) = (if batchFirst then c else d) then
+      some (if batchFirst then a else b, if batchFirst then b else a, if batchFirst then d else c)
+    else none
+  | _, _ => none
+
+/-- `minimum_error_rate_loss`: `log_probs` 2-D, `hyp` 3-D, `ref` 2-D (then repeated per sample)
+or 3-D, batch and sample sizes of the three agree, at least two samples, a known reduction.
+Returns `(N, M, R, H)`. -/
+def checkMerShapes (batchFirst : Bool) (lp ref hyp : List Nat) (reduction : String) :
+    Option (Nat × Nat × Nat × Nat) :=
+  match lp, hyp with
+  | [n, m], [a, b, c] =>
+    let N := if batchFirst then a else b
+    let M := if batchFirst then b else c
+    let H := if batchFirst then c else a
+    let refLen : Option Nat := match ref with
+      | [p, q] => if (if batchFirst then p else q) = N then some (if batchFirst then q else p) else none
+      | [p, q, r] =>
+        if (if batchFirst then p else q) = N ∧ (if batchFirst then q else r) = M then
+          some (if batchFirst then r else p)
+        else none
+      | _ => none
+    match refLen with
+    | some R =>
+      if n = N ∧ m = M ∧ 2 ≤ M ∧ (reduction = "mean" ∨ reduction = "sum" ∨ reduction = "none") then
+        some (N, M, R, H)
+      else none
+    | none => none
+  | _, _ => none
 
 end PdtVerif.ErrorRate
